@@ -40,12 +40,15 @@ CONSTANTS
     RestoreStoredLabels, \* restore mounts with the labels stored in the metadata
     HonourAllowInvalid,  \* a failing restore mount aborts the start unless allowInvalidMountsOnRestart
     RenameBeforeCommit,  \* createSnapshot renames the temporary into place before committing the txn
-    CleanupScansTemps    \* the orphan scan also reclaims new-* temporaries
+    CleanupScansTemps,   \* the orphan scan also reclaims new-* temporaries
+    RestoreMkdirOnlyIfParentMissing  \* NEGATIVE CONTROL, FALSE = the code: restore creates <id> AND <id>/fs, each if missing;
+                         \* TRUE: <id>/fs is only created when <id> itself had to be created
 
 VARIABLES
     meta,    \* [Names -> snapshot record]; kind "none" = absent. The COMMITTED bolt state
     seq,     \* bolt's id sequence (committed); a rolled-back create does not advance it
-    dirs,    \* set of ids whose directory exists
+    dirs,    \* directories below snapshots/: d = <d> exists with its fs entry (complete), -d = <d> exists WITHOUT fs
+             \* (what a kill inside os.RemoveAll(<d>) or between the two mkdirs of restore leaves); neither = absent
     tmps,    \* number of new-* directories
     mounts,  \* backend mount table: sequence of [d, ref, u] sorted by d
     stale,   \* ids whose fs directory carries a kernel mount no backend knows (left by a dead process)
@@ -70,6 +73,7 @@ IdleOp == [name |-> "idle", pc |-> "", k |-> "", p |-> "", tgt |-> "", u |-> 0, 
 Has(m, n) == n \in Names /\ m[n].kind # "none"
 Exists(n) == Has(meta, n)
 IdsOf(m) == {m[n].id : n \in {x \in Names : m[x].kind # "none"}}
+DirIds == {IF x > 0 THEN x ELSE -x : x \in dirs}     \* ids that have a directory entry at all (readdir)
 MDirsOf(ms) == {ms[i].d : i \in DOMAIN ms}
 MDirs == MDirsOf(mounts)
 MCount(ms, d) == Cardinality({i \in DOMAIN ms : ms[i].d = d})
@@ -204,7 +208,7 @@ UnmountEffect(d, res) ==
 
 RmdirEffect(d, ms) ==
     /\ IF d = 0 THEN tmps' = tmps - 1 /\ dirs' = dirs
-       ELSE tmps' = tmps /\ dirs' = IF d \in MDirsOf(ms) \/ d \in stale THEN dirs ELSE dirs \ {d}
+       ELSE tmps' = tmps /\ dirs' = IF d \in MDirsOf(ms) \/ d \in stale THEN dirs ELSE dirs \ {d, -d}
     /\ last' = [act |-> "Hook", name |-> "cleanupdir.done", d |-> d]
 
 \* first half of cleanupSnapshotDirectory for a freshly picked directory
@@ -305,7 +309,7 @@ R_Commit == InOp("Commit") /\ op.pc = "done" /\ Finish(Ret(op.err, <<>>, {}, {})
 \* the directories are reclaimed after the commit
 RemoveErr == IF ~Exists(op.k) THEN "notfound" ELSE IF HasChild(meta, op.k) THEN "other" ELSE ""
 Removed == [meta EXCEPT ![op.k] = NoRec]
-Orphans(m) == dirs \ IdsOf(m)
+Orphans(m) == DirIds \ IdsOf(m)
 RM_Txn ==
     /\ InOp("Remove") /\ op.pc = "start" /\ ~Async /\ RemoveErr = ""
     /\ meta' = Removed
@@ -328,7 +332,7 @@ CL_Scan ==
     /\ ~Virgin
     /\ op' = [op EXCEPT !.pc = "cleaning",
                         !.todo = IF op.name = "Cleanup" THEN Orphans(meta)
-                                 ELSE {meta[n].id : n \in {x \in Names : Exists(x) /\ meta[x].remote}} \cap dirs,
+                                 ELSE {meta[n].id : n \in {x \in Names : Exists(x) /\ meta[x].remote}} \cap DirIds,
                         !.tt = IF op.name = "Cleanup" /\ CleanupScansTemps THEN tmps ELSE 0]
     /\ last' = Hook("cleanup.scan")
     /\ UNCHANGED <<meta, seq, dirs, tmps, mounts, stale, up, bsurv, nops, nrs>>
@@ -363,14 +367,25 @@ R_Update ==
 \* stay in the kernel as dead mounts); a fuse manager survives with its table (bs)
 \* DEVIATION: a crash during restore or during Close (which main.go runs in fuse manager mode only to shut the manager
 \* down as well) is only modelled with a backend that dies too
-Crash(bs) ==
+\* A kill inside os.RemoveAll(<d>) of Close (after the Unmount, before cleanupdir.done) can leave <d> without fs; a kill
+\* between the two mkdirs of restore leaves the new <d> without fs.  TornDir = the directory concerned, 0 = none.
+\* DEVIATION: the partial removal is modelled for Close only (elsewhere the half-removed directory is just an orphan)
+TornDir ==
+    IF up = "up" /\ op.name = "Close" /\ op.pc = "cleaning" /\ UnmountFirst /\ op.cur > 0 /\ op.cur \in dirs /\ op.cur \notin MDirs
+    THEN op.cur
+    ELSE IF op.name = "Restart" /\ op.pc = "tasks" /\ op.tasks # <<>> /\ meta[Head(op.tasks)].id \notin DirIds /\ RestoreMkdir
+    THEN meta[Head(op.tasks)].id
+    ELSE 0
+Crash(bs, torn) ==
     /\ up = "up" \/ op.name = "Restart"
     /\ nrs < MaxRestarts
     /\ bs \in SurviveModes /\ (op.name \in {"Restart", "Close"} => ~bs)
+    /\ torn => TornDir # 0
     /\ op' = IdleOp /\ up' = "down" /\ bsurv' = bs
     /\ IF bs THEN UNCHANGED <<mounts, stale>> ELSE stale' = stale \cup MDirs /\ mounts' = <<>>
-    /\ last' = [act |-> "Crash", bs |-> bs]
-    /\ UNCHANGED <<meta, seq, dirs, tmps, nops, nrs>>
+    /\ dirs' = IF torn THEN (dirs \ {TornDir}) \cup {-TornDir} ELSE dirs
+    /\ last' = [act |-> "Crash", bs |-> bs, d |-> IF torn THEN TornDir ELSE 0]
+    /\ UNCHANGED <<meta, seq, tmps, nops, nrs>>
 
 \* NewSnapshotter on the same root. NoRestore iff the backend survived (cmd/containerd-stargz-grpc/main.go)
 RS_Begin(ai) ==
@@ -390,7 +405,9 @@ RS_Unmount ==
 
 RS_Mkdir ==
     /\ op.name = "Restart" /\ op.pc = "tasks" /\ op.tasks # <<>>
-    /\ dirs' = IF RestoreMkdir THEN dirs \cup {meta[Head(op.tasks)].id} ELSE dirs
+    /\ LET d == meta[Head(op.tasks)].id IN      \* Mkdir(<d>) and Mkdir(<d>/fs), "exists" tolerated for both
+       dirs' = IF ~RestoreMkdir \/ (RestoreMkdirOnlyIfParentMissing /\ d \in DirIds) THEN dirs
+               ELSE (dirs \ {-d}) \cup {d}
     /\ op' = [op EXCEPT !.pc = "mkdired"]
     /\ last' = [act |-> "Hook", name |-> "restore.mkdir", k |-> Head(op.tasks)]
     /\ UNCHANGED <<meta, seq, tmps, mounts, stale, up, bsurv, nops, nrs>>
@@ -437,7 +454,7 @@ Next ==
     \/ RM_Txn \/ R_Remove
     \/ CL_Scan \/ R_Cleanup \/ R_Close
     \/ R_Mounts \/ R_Update
-    \/ \E bs \in BOOLEAN : Crash(bs)
+    \/ \E bs \in BOOLEAN, torn \in BOOLEAN : Crash(bs, torn)
     \/ \E ai \in BOOLEAN : RS_Begin(ai)
     \/ RS_Unmount \/ RS_Mkdir
     \/ \E res \in {"ok", "fail"} : RS_Mount(res)
@@ -562,7 +579,8 @@ RestartPreservesBody ==
     (last'.act \in {"Crash", "Restart", "Started", "StartFailed"} \/ (last'.act = "FsMount" /\ last'.op = "Restart")
         \/ (last'.act = "Hook" /\ last'.name \in {"restore.unmounted", "restore.mkdir"}))
           => /\ meta' = meta /\ tmps' = tmps
-             /\ dirs \subseteq dirs' /\ dirs' \ dirs \subseteq AnyRemoteIds
+             /\ DirIds \subseteq DirIds' /\ DirIds' \ DirIds \subseteq AnyRemoteIds
+             /\ \A d \in dirs : (d > 0 /\ d \notin AnyRemoteIds) => d \in dirs'    \* ordinary snapshots untouched
 RestartPreservesSnapshots == [][RestartPreservesBody]_vars
 \* acknowledged snapshots stay removable: Remove of an existing snapshot without children succeeds
 \* (evaluated where the pre-state is known: the spec and the monitor record it in last.had / last.leaf)
@@ -594,7 +612,9 @@ A_ReclaimedDirIsGone == [][ReclaimedDirIsGone']_vars
 
 (* internal consistency of the design (not part of the properties) *)
 TypeOK ==
-    /\ seq \in 0..MaxId /\ tmps \in 0..(MaxOps + 1) /\ dirs \subseteq 1..MaxId
+    /\ seq \in 0..MaxId /\ tmps \in 0..(MaxOps + 1) /\ dirs \subseteq ((-MaxId)..MaxId) \ {0}
+    /\ \A d \in dirs : -d \notin dirs
+    /\ (up = "up" /\ op.name # "Restart") => \A d \in dirs : d > 0       \* half-made directories exist only while down
     /\ up \in {"up", "down"}
     /\ \A n \in Names : meta[n].id \in 0..seq
 IdsUnique == \A a, b \in Names : (Exists(a) /\ Exists(b) /\ a # b) => meta[a].id # meta[b].id
